@@ -81,6 +81,7 @@ Ev == [ev |-> "frag", alg |-> "opt", n |-> n, fs |-> [x \in 1..n |-> <<fs[x].w, 
        shape |-> [x \in 1..Len(lines) |-> <<lines[x][1] - 1, lines[x][2] - lines[x][1] + 1>>], res |-> lines, status |-> "ok"]
 AllOk(cs) == \A x \in 1..Len(cs) : cs[x].ok \/ (PrintT(<<"FAILED", cs[x].p, cs[x].c, cs[x].r>>) /\ FALSE)
 PropFrag == pc = "done" => AllOk(Judge_frag(Ev))
-Terminates == <>(pc = "done" \/ pc = "build")
+\* once a call has begun it returns (checked under weak fairness of the step actions: the algorithms terminate)
+Terminates == (pc # "build") ~> (pc = "done")
 Emit == pc = "done" => PrintT(<<"REPLAY", ToJson([k |-> "frag", alg |-> "opt", fs |-> Ev.fs, lws |-> lws, scale |-> 1, pen |-> pen])>>)
 =============================================================================
